@@ -189,17 +189,18 @@ def msd_scratch(x, r):
 
 
 def observe_rmsd(ctx, t, m, hist):
+    """md.rmsd(t, t, frame, precentered=True) vs RMSD from scratch on fresh copies.
+
+    On a correct tree the shortcut is safe after ANY history of the alphabet: cached traces exist only while the
+    coordinates are the centred ones they were computed from (every operation that changes coordinates or the atom set
+    goes through the xyz setter / builds a new object, which drops them; frame slicing indexes them), and without
+    cached traces md.rmsd falls back to centring itself.  So no 'is it centred?' precondition is applied here — a
+    stale trace on moved coordinates is exactly what must be seen.  md.rmsd may centre its target in place (documented):
+    afterwards the model adopts the new xyz once it is verified to be a per-frame translation of the old one."""
     import mdtraj as md
-    if t._rmsd_traces is None and not hist["centered_once"]:
-        ctx.skip("traces.precentered-vs-scratch", "no cached traces yet")
-        return
-    x = t.xyz
-    cen = np.abs(x.mean(axis=1)).max()
-    if cen > 1e-5 * max(1.0, np.abs(x).max()):
-        ctx.skip("traces.precentered-vs-scratch", "coordinates not centred: precentered=True would be a caller error")
-        return
     fr = int(hist["rng"].integers(0, t.n_frames))
     raw = np.array(t.xyz, copy=True)
+    had_traces = t._rmsd_traces is not None
     try:
         got = md.rmsd(t, t, fr, precentered=True).astype(np.float64) ** 2
     except Exception as e:
@@ -207,19 +208,28 @@ def observe_rmsd(ctx, t, m, hist):
         return
     ref = msd_scratch(raw, raw[fr:fr + 1])
     N = raw.shape[1]
-    G = (raw.astype(np.float64) ** 2).sum(axis=(1, 2))
-    tol = 2e-4 * (G + G[fr]) / N + 1e-9
+    c = raw.astype(np.float64) - raw.astype(np.float64).mean(axis=1, keepdims=True)
+    G = (c ** 2).sum(axis=(1, 2))
+    off = float(np.abs(raw).max())
+    tol = 2e-4 * (G + G[fr]) / N + 1e-9 + 64 * (2.0 ** -24 * off) ** 2
     bad = np.abs(got - ref) > tol
+    ctx.observe("precentered_call", "cached-traces" if had_traces else "no-traces(fallback)")
     if got.shape != ref.shape or bad.any():
         j = int(np.argmax(bad)) if got.shape == ref.shape else -1
-        last = [o for o in hist["ops"] if not o.startswith("obs")][-3:]
         cause = next((o for o in reversed(hist["since_center"])), "none")
-        ctx.violation("traces.precentered-vs-scratch", f"stale-rmsd-traces-after:{cause}",
+        ctx.violation("traces.precentered-vs-scratch", f"stale-rmsd-traces-after:{cause}" if had_traces else f"rmsd(precentered=True):no-traces:wrong-after:{cause}",
                       f"rmsd(precentered=True) differs from rmsd from scratch after {hist['ops']}: msd {got[j]:.6g} vs {ref[j]:.6g} (tol {tol[j]:.2g})")
     else:
         ctx.ok("traces.precentered-vs-scratch")
     if not np.array_equal(t.xyz, raw):
-        ctx.violation("traces.precentered-modifies", "rmsd(precentered=True):modifies-xyz", "rmsd(precentered=True) changed the coordinates")
+        x = np.asarray(t.xyz, np.float64)
+        moved = x - raw
+        rigid_shift = np.abs(moved - moved[:, :1]).max() <= 1e-5 * max(1.0, off)
+        if rigid_shift:
+            m["xyz"] = np.array(t.xyz, copy=True)  # documented in-place centring of the target
+            ctx.observe("rmsd_centred_target_in_place", "yes")
+        else:
+            ctx.violation("traces.precentered-modifies", "rmsd(precentered=True):distorts-xyz", "rmsd(precentered=True) changed the coordinates by more than a per-frame translation")
 
 
 def run_case(case, ctx):
@@ -343,6 +353,8 @@ def run_case(case, ctx):
                 hist["since_center"] = []
             elif op == "superpose":
                 ref, _ = make(rng, 2, na // 2, False, top=t.topology, ids=m["ids"])
+                if rng.random() < 0.7:  # a reference away from the origin: superpose moves every frame to ITS centroid
+                    ref.xyz = (ref.xyz + rng.uniform(-3, 3, (1, 1, 3))).astype(np.float32)
                 before = np.array(t.xyz, copy=True)
                 out = t.superpose(ref, frame=int(rng.integers(0, 2)))
                 label = "superpose"
